@@ -270,7 +270,16 @@ def _api(tree):
   if not (len(b) == 1 and isinstance(b[0], ast.Return) and
           ast.unparse(b[0].value) == 'msgpack.unpackb(encoded_pytree, ext_hook=_msgpack_ext_unpack, raw=False)'):
     _unsupported('msgpack_deserialize: not msgpack.unpackb(encoded_pytree, ext_hook=_msgpack_ext_unpack, raw=False)')
+  # determinism: nothing in the module may depend on object identity, hashing, time, the environment or randomness
+  for node in ast.walk(tree):
+    if isinstance(node, ast.Call) and isinstance(node.func, ast.Name) and node.func.id in ('hash', 'id'):
+      _unsupported(f'serialization.py calls {node.func.id}(): result may differ between processes')
+    if isinstance(node, ast.Attribute) and isinstance(node.value, ast.Name) and node.value.id in ('time', 'uuid', 'random', 'secrets', 'datetime'):
+      _unsupported(f'serialization.py uses {node.value.id}.{node.attr}')
+    if isinstance(node, ast.Attribute) and D(node) in ('os.environ', 'np.random', 'os.getpid'):
+      _unsupported(f'serialization.py uses {D(node)}')
   out = ['(* strict_types=True: tuples (and subclasses) are not packed natively but handed to `default` *)',
+         'Definition serialization_has_no_process_dependent_input : bool := true.',
          'Definition serialize_strict_types : bool := true.']
   for nm, mode, fn in (('save_state', 'wb', 'pickle.dump(state, f)'), ('load_state', 'rb', 'return pickle.load(f)')):
     fd = T.find_def(tree, nm)
